@@ -23,7 +23,12 @@ pub fn get() -> FunctionDefinitions {
                     if num2 == 0.0 {
                         None
                     } else {
-                        Some((num1 / num2).into())
+                        let result = num1 / num2;
+                        if result.is_finite() {
+                            Some(result.into())
+                        } else {
+                            None
+                        }
                     }
                 } else {
                     None
